@@ -101,6 +101,11 @@ var c10vConfigs = []*Config{
 	{Name: "v-subAW", Tier: "quick", Mode: "c10v", Events: []string{evLease1, evSubA, evSubW}, Budgets: bQ + "|2,2", ThoroughBudgets: bQ + "|2,2|3,3/2"},
 	{Name: "v-update-subAW", Tier: "quick", Mode: "c10v", Events: []string{evLease1, evUpdate, evSubB, evSubW, evLease2}, Budgets: "0,0;1,0;0,1", ThoroughBudgets: "0,0;1,0;0,1|1,1/2"},
 	{Name: "v-1update-subAB", Tier: "quick", Mode: "c10v", Events: []string{evLease1, evUpdate, evSubA, evSubB}, Budgets: bQ, ThoroughBudgets: bQ + "|2,2|3,3/4"},
+	// versions that come back (round-7 seed C10-13: a manager that de-duplicated its version list judged by a stale "last" entry
+	// once the deployment was rolled B -> A -> B): three updates over two distinct versions, in every order
+	{Name: "v-returns-subB", Tier: "quick", Mode: "c10v", Events: []string{evLease1, evUpdate, evUpdateA, evUpdateB2, evSubB}, Budgets: "0,0;1,0;0,1", ThoroughBudgets: "0,0;1,0;0,1|1,1/2|2,1/4"},
+	{Name: "v-returns-subA", Tier: "quick", Mode: "c10v", Events: []string{evLease1, evUpdate, evUpdateA, evUpdateB2, evSubA}, Budgets: "0,0;1,0;0,1", ThoroughBudgets: "0,0;1,0;0,1|1,1/2|2,1/4"},
+	{Name: "v-returns-subAB", Tier: "thorough", Mode: "c10v", Events: []string{evLease1, evUpdate, evUpdateA, evUpdateB2, evSubA, evSubB}, ThoroughBudgets: "0,0;1,0;0,1|1,1/2"},
 	{Name: "v-nolease-subBC", Tier: "thorough", Mode: "c10v", Events: []string{evUpdate, evUpdate2, evSubB, evSubC, evLease1}, ThoroughBudgets: "0,0;1,0;0,1|1,1/2"},
 	{Name: "v-fetcherr-subBC", Tier: "thorough", Mode: "c10v", Events: []string{evLease1, evUpdate, evUpdate2, evSubB, evSubC}, FetchErrs: 1, ThoroughBudgets: "0,0;1,0|0,1/2"},
 }
